@@ -158,59 +158,86 @@ def r10_2_3_4(prog, rep, fields):
 
 
 def r10_5(prog, rep):
+    """new-group bookkeeping of the group matrix, decided on the abstract evaluation of the loop body (shared with R17.1)"""
+    from .C17 import loop_model
+    from .. import symexec as SX
+
     shared.new_group_block(prog, rep, "R10.5")
-    f = prog.fn("matrices.GroupEffectsMatrix.evaluate_new_data")
-    loops = [n for n in walk_local(f.node) if isinstance(n, ast.For) and unparse(n.iter) == "self.terms.values()"]
-    if len(loops) != 1:
-        raise AnalysisError("GroupEffectsMatrix.evaluate_new_data: loop over self.terms.values() not found")
-    lp = loops[0]
-    tv = unparse(lp.target)
-    defs = {unparse(s.targets[0]): unparse(s.value) for s in ast.walk(lp) if isinstance(s, ast.Assign) and len(s.targets) == 1}
-    apps = [x for x in calls_in(lp) if unparse(x.func) == "factors_with_new_levels.append"]
-    ok = len(apps) == 1 and unparse(apps[0].args[0]) == f"{tv}.factor.name"
-    obl(rep, f, apps[0] if apps else lp, "R10.5", ok, "the reported name is the grouping factor's name of the term being evaluated")
-    conds = [i for i in ast.walk(lp) if isinstance(i, ast.If) and apps and any(apps[0] is x for x in ast.walk(i))]
-    ok = len(conds) == 1
-    if ok:
-        t = conds[0].test
-        parts = [unparse(v) for v in t.values] if isinstance(t, ast.BoolOp) and isinstance(t.op, ast.And) else [unparse(t)]
-        width_cmp = [p for p in parts if "!=" in p]
-        dedup = [p for p in parts if p == f"{tv}.factor.name not in factors_with_new_levels"]
-        ok = len(width_cmp) == 1 and len(dedup) == 1
-        if ok:
-            l, r = [x.strip() for x in width_cmp[0].split("!=")]
+    q = "matrices.GroupEffectsMatrix.evaluate_new_data"
+    try:
+        M = loop_model(prog, q, None)
+    except AnalysisError as e:
+        rep.defer(f"R10.5: {e}")
+        return
+    f, lp, tv, ex, pre, container, body = (M[k] for k in ("f", "lp", "tv", "ex", "pre", "container", "body"))
+    data = f.params[1]
+    # the list that becomes factors_with_new_levels
+    fin = [st for st in body if isinstance(st, ast.Assign) and unparse(st.targets[0]) == f"{container}.factors_with_new_levels"]
+    L = None
+    if len(fin) == 1 and isinstance(fin[0].value, ast.Call) and dotted(fin[0].value.func) == "tuple" and len(fin[0].value.args) == 1 \
+            and isinstance(fin[0].value.args[0], ast.Name) and body.index(fin[0]) > body.index(lp):
+        L = fin[0].value.args[0].id
+    obl(rep, f, fin[0] if fin else f.node, "R10.5", L is not None, "factors_with_new_levels is returned as a tuple of the collected names")
+    if L is None:
+        return
+    obl(rep, f, lp, "R10.5", pre.env.get(L) == SX.Opaque("[]"), "the list starts empty for every evaluation (no carry-over between calls)",
+        "", f"`{L}` is `{SX.render(pre.env[L]) if L in pre.env else 'undefined'}` before the loop")
+    apps = [e for e in ex.effects if e[0] == "call" and e[1][0] == f"{L}.append"]
+    ok = len(apps) == 1 and len(apps[0][1][1]) == 1 and SX.render(apps[0][1][1][0]) == f"{tv}.factor.name"
+    obl(rep, f, apps[0][1][2] if apps else lp, "R10.5", ok, "the reported name is the grouping factor's name of the term being evaluated",
+        "", f"appended: {[SX.render(a[1][1][0]) for a in apps if a[1][1]]}")
+    # the slice stored for the term and its width
+    stores = [e for e in ex.effects if e[0] == "store" and e[1][0] == f"{container}.slices"]
+    val = stores[0][1][2] if len(stores) == 1 else None
+    W = SX.add(val.hi, val.lo, -1) if isinstance(val, SX.Slice) else None
+    arr = f"{tv}.eval_new_data({data})"
+    obl(rep, f, stores[0][1][3] if stores else lp, "R10.5", W is not None and SX.width_of(W, arr) and stores[0][2] == (),
+        "every term's slice is rebuilt from the NEW width of its block (later terms shift when a block widens)",
+        SX.render(W) if W is not None else "", f"the stored slice has width `{SX.render(W) if W is not None else '?'}`, not the column count of `{arr}`")
+    if not ok or W is None:
+        return
+    path = apps[0][2]
+    okc = len(path) == 1 and path[0][1] is True
+    width_cmp = dedup = False
+    parts = []
+    if okc:
+        t = ast.parse(path[0][0], mode="eval").body
+        conj = t.values if isinstance(t, ast.BoolOp) and isinstance(t.op, ast.And) else [t]
+        parts = [unparse(c) for c in conj]
+        fresh = SX.SymExec()
 
-            def expand(e):
-                for _ in range(4):
-                    e2 = defs.get(e, e)
-                    if e2 == e:
-                        break
-                    e = e2
-                return e
+        def width_desc(n):
+            txt = unparse(n)
+            old_slice = f"self.slices[{tv}.name]"
+            if txt in (f"get_slice_width({old_slice})", f"{old_slice}.stop - {old_slice}.start"):
+                return "old"
+            if isinstance(n, ast.Call) and dotted(n.func) == "get_slice_width" and len(n.args) == 1:
+                v = fresh.val(n.args[0])
+                if isinstance(v, SX.Slice):
+                    w = SX.add(v.hi, v.lo, -1)
+                    return "new" if w == W else f"other width `{SX.render(w) if w is not None else txt}`"
+            v = fresh.val(n)
+            vn = SX.add(v, SX.Lin(0))
+            if v == W or (vn is not None and vn == W):
+                return "new"
+            return f"`{txt}`"
 
-            le, re_ = expand(l), expand(r)
-            # get_slice_width(slice_original) with slice_original = self.slices[term.name]; and the new slice
-            le = le.replace("slice_original", defs.get("slice_original", "slice_original")).replace("slice_new", defs.get("slice_new", "slice_new"))
-            re_ = re_.replace("slice_original", defs.get("slice_original", "slice_original")).replace("slice_new", defs.get("slice_new", "slice_new"))
-            pair = {le, re_}
-            ok = pair == {f"get_slice_width(self.slices[{tv}.name])", "get_slice_width(slice(start, start + delta))"}
-            obl(rep, f, conds[0], "R10.5", ok,
-                "a factor is reported iff the training slice width of the SAME term differs from its new width, once per factor",
-                str(sorted(pair)), f"width comparison is {sorted(pair)}")
-        else:
-            obl(rep, f, conds[0], "R10.5", False, "width comparison and de-duplication guard present", "", f"condition parts {parts}")
+        for c in conj:
+            if isinstance(c, ast.UnaryOp) and isinstance(c.op, ast.Not) and isinstance(c.operand, ast.Compare) and len(c.operand.ops) == 1 \
+                    and isinstance(c.operand.ops[0], ast.In):
+                c = ast.Compare(left=c.operand.left, ops=[ast.NotIn()], comparators=c.operand.comparators)
+            if isinstance(c, ast.Compare) and len(c.ops) == 1 and isinstance(c.ops[0], ast.NotIn) and unparse(c.left) == f"{tv}.factor.name" \
+                    and unparse(c.comparators[0]) == L:
+                dedup = True
+            elif isinstance(c, ast.Compare) and len(c.ops) == 1 and isinstance(c.ops[0], ast.NotEq):
+                pair = {width_desc(c.left), width_desc(c.comparators[0])}
+                width_cmp = pair == {"old", "new"}
+                parts.append(f"width comparison sides: {sorted(pair)}")
+        okc = width_cmp and dedup and len(conj) == 2
+    obl(rep, f, apps[0][1][2], "R10.5", okc,
+        "a factor is reported iff the training slice width of the SAME term differs from its new width, once per factor",
+        str(parts), f"the report is guarded by {parts or [c for c in path]}: not `training width of this term != its new width, and not yet reported`")
     gw = prog.fn("matrices.get_slice_width")
     rets = [n for n in walk_local(gw.node) if isinstance(n, ast.Return)]
     obl(rep, gw, gw.node, "R10.5", len(rets) == 1 and unparse(rets[0].value) == f"{gw.params[0]}.stop - {gw.params[0]}.start",
         "get_slice_width = stop - start")
-    fin = [s for s in walk_local(f.node) if isinstance(s, ast.Assign) and unparse(s.targets[0]) == "new_instance.factors_with_new_levels"]
-    ok = len(fin) == 1 and unparse(fin[0].value) == "tuple(factors_with_new_levels)"
-    obl(rep, f, fin[0] if fin else f.node, "R10.5", ok, "factors_with_new_levels is returned as a tuple of the collected names")
-    init = [s for s in walk_local(f.node) if isinstance(s, ast.Assign) and unparse(s.targets[0]) == "factors_with_new_levels"]
-    obl(rep, f, init[0] if init else f.node, "R10.5", len(init) == 1 and unparse(init[0].value) == "[]" and not any(init[0] is x for x in ast.walk(lp)),
-        "the list starts empty for every evaluation (no carry-over between calls)")
-    # slices are rebuilt from the new widths: shared with R17.1
-    st = [s for s in lp.body if isinstance(s, ast.Assign) and unparse(s.targets[0]) == f"new_instance.slices[{tv}.name]"]
-    ok = len(st) == 1 and defs.get(unparse(st[0].value), unparse(st[0].value)) == "slice(start, start + delta)" \
-        and defs.get("delta", "") == "term_matrix.shape[1] if term_matrix.ndim == 2 else 1" and defs.get("term_matrix") == f"{tv}.eval_new_data(data)"
-    obl(rep, f, st[0] if st else lp, "R10.5", ok, "every term's slice is rebuilt from the NEW width of its block (later terms shift when a block widens)")
